@@ -34,4 +34,7 @@ finally:
     subprocess.run(["git", "-C", "/verif", "checkout", "--", "evidence"], check=False)
     for f in os.listdir("/verif/replays"):
         os.remove(os.path.join("/verif/replays", f))
-json.dump(results, open(os.path.join(sd, "detection.json"), "w"), indent=1)
+dp = os.path.join(sd, "detection.json")
+merged = json.load(open(dp)) if os.path.exists(dp) else {}
+merged.update(results)
+json.dump(merged, open(dp, "w"), indent=1)
